@@ -229,6 +229,13 @@ func checkCut(c *Case, s *gen.Stream, ref cutRun, cov *Cov) []*Violation {
 			}
 		}()
 	}
+	// a snapshot that is returned can be used: the first thing the command
+	// does with one is IsRace(), then Aggregate
+	if res.Snap != nil {
+		if p := usable(res.Snap); p != "" {
+			add("unusable-snapshot", "", fmt.Sprintf("ScanSnapshot returned a snapshot (%d goroutines, error %s) on which the command's next calls panic: %s", len(res.Snap.Goroutines), errk, p))
+		}
+	}
 	if len(s.Dumps) > 0 && ref.res.Snap != nil {
 		di := &s.Dumps[0]
 		refG := StripNames(ref.res.Snap.Goroutines)
@@ -284,6 +291,16 @@ func checkCut(c *Case, s *gen.Stream, ref cutRun, cov *Cov) []*Violation {
 		// the partial goroutine of a goroutine dump: what ended before the cut
 		// must match
 		if !di.Race && c.Doc != nil {
+			// a goroutine whose header line ended before the cut is the one being
+			// read (or an earlier one): it may be partial, it may not be absent
+			for gi := range di.GorEnd {
+				if di.GorEnd[gi] > cut.K && gi >= len(gotG) && gi < len(refG) {
+					if hdrEnd, _ := frameEnds(s, c.Doc, di, gi); hdrEnd <= cut.K {
+						add("partial-goroutine", "", fmt.Sprintf("goroutine #%d: its header line ended before the cut but the goroutine is missing (%d returned, snapshot nil=%v, error %s)", gi, len(gotG), res.Snap == nil, errk))
+					}
+					break
+				}
+			}
 			for gi := range di.GorEnd {
 				if di.GorEnd[gi] > cut.K && gi < len(gotG) && gi < len(refG) {
 					hdrEnd, ends := frameEnds(s, c.Doc, di, gi)
@@ -530,4 +547,19 @@ func init() {
 			return []*Case{{Prop: "C10", Mode: "cut", Doc: doc, Cut: &Cut{K: 7 + 14, Kind: "close"}, NameArgs: true}}
 		},
 	})
+}
+
+// usable calls what the command calls on every snapshot it gets (IsRace, then
+// Aggregate on a copy of the goroutine list) and returns the panic, if any.
+func usable(sn *stack.Snapshot) (pan string) {
+	defer func() {
+		if p := recover(); p != nil {
+			pan = fmt.Sprint(p)
+		}
+	}()
+	_ = sn.IsRace()
+	cp := *sn
+	cp.Goroutines = append([]*stack.Goroutine(nil), sn.Goroutines...)
+	_ = cp.Aggregate(stack.AnyValue)
+	return ""
 }
